@@ -214,7 +214,7 @@ func TestCheck(t *testing.T) {
 		}
 		scs = keep
 	}
-	r.Rule("scenario = (entries pre-stored in the default layout, client histories over submit / sequence / read-everything-through-both-endpoints, cache kind in {noop, LRU 1/2/1000, adversarial hit-by-default, adversarial miss-by-default}, fault menu); per scenario every choice vector within the deviation bound over: which pending store / cache call is answered next, with which answer (ok; Add error; FindByKey error / no rows / nil / empty / truncated / trailing byte / wrong outer tag / bit flip; cache Get hit / miss / error; cache Set stored / dropped / error), and when the next operation starts. Plus exhaustive sweeps: every truncation length and every single-bit flip of a stored row; every encoding of the four extra-data layouts for every (leaf, issuance chain) pair. distinct_nontrivial = distinct (scenario, per-request status vector) outcomes + sweep cases")
+	r.Rule("scenario = (entries pre-stored in the default layout, client histories over submit / sequence / read-everything-through-both-endpoints, cache kind in {noop, LRU 1/2/1000, adversarial hit-by-default, adversarial miss-by-default}, fault menu); per scenario every choice vector within the deviation bound over: which pending store / cache call is answered next, with which answer (ok; Add error; FindByKey error / no rows / nil / empty / truncated / trailing byte / wrong outer tag / bit flip; cache Get hit / miss / error; cache Set stored / dropped / error), and when the next operation starts. Plus exhaustive sweeps: every truncation length and every single-bit flip of a stored row; every encoding of the four extra-data layouts for every (leaf, issuance chain) pair. distinct_nontrivial = distinct (scenario, per-request status vector) outcomes of executions in which the front end called the store or the cache at least once, + distinct damaged rows of the sweep + distinct layout cases")
 	r.Assume("the backend is the reference backend ref/reflog and never fails (backend faults belong to C08)",
 		"store and cache calls are atomic at the granularity of the IssuanceChainStorage / IssuanceChainCache interfaces; accesses between calls are covered by the free-running race pass",
 		"real LRU caches are built with TTL 0 (no janitor goroutine); expiry and every eviction policy are over-approximated by the adversarial cache, which may miss on any read and drop any write",
@@ -244,7 +244,7 @@ func TestCheck(t *testing.T) {
 	fmt.Printf("phase direct done at %.1fs\n", time.Since(t0).Seconds())
 	r.Set("default_mode_histories", len(keys))
 	r.Set("scenarios", len(scs))
-	var exec, pts, div, maxDepth atomic.Int64
+	var exec, pts, div, maxDepth, trivial atomic.Int64
 	perClass := map[string]*atomic.Int64{}
 	for _, sc := range scs {
 		if perClass[sc.Class] == nil {
@@ -315,6 +315,10 @@ func TestCheck(t *testing.T) {
 		}
 		r.Eval(int(n))
 		for _, o := range ex.OutcomeList(1 << 30) {
+			if strings.Contains(o, " => trivial (no store or cache call)") {
+				trivial.Add(1)
+				continue
+			}
 			r.Nontrivial(o[:strings.LastIndex(o, " x")])
 		}
 		if ex.Capped.Load() {
@@ -336,6 +340,7 @@ func TestCheck(t *testing.T) {
 	for c, n := range perClass {
 		r.Set("executions_"+c, n.Load())
 	}
+	r.Set("trivial_outcomes_not_counted", trivial.Load())
 	r.Set("executions", exec.Load())
 	r.Set("decision_points", pts.Load())
 	r.Set("max_depth", maxDepth.Load())
